@@ -1,6 +1,6 @@
 (** Pinned statements of the C07 property theorems: compiled on every check, so a theorem cannot be
     weakened silently. *)
-From V Require Import Base.Util Gql.Ast Peg.Peg Gen.C07_grammar_gen C07.Builder C07.Model C07.AstEq C07.Spec C07.Proofs C07.Lexical C07.Strings C07.Properties.
+From V Require Import Base.Util Gql.Ast Peg.Peg Gen.C07_grammar_gen C07.Builder C07.Model C07.AstEq C07.Spec C07.Proofs C07.Lexical C07.Strings C07.Numbers C07.Properties.
 From V Require Import Peg.PegProps.
 
 Check (C07_positions_true : forall inp file (p : pair rule),
@@ -62,6 +62,10 @@ Check (C07_string_lex_empty : forall pre post file sk a,
   runs gql_grammar sk a (Call R_StringValue) (quote [] ++ post) i (Ok (post, (i + 2)%N, [t]))
   /\ build_string_value inp file t = BOk (mkPos (fst (line_col inp i)) (snd (line_col inp i)) file false, [])).
 Check (C07_spec_reads_quote : forall v post, (v = [] -> not_quote_next post) -> string_at (quote v ++ post) = Some v).
+Check (C07_int_lex : forall l post sk i,
+  is_int_lexeme l = true -> int_follow_ok post = true ->
+  runs gql_grammar sk ANon (Call R_IntValue) (l ++ post) i
+       (Ok (post, (i + slen l)%N, [Pair R_IntValue i (i + slen l)%N []]))).
 Print Assumptions C07_positions_true.
 Print Assumptions C07_lone_cr_refuted.
 Print Assumptions C07_block_string_refuted.
@@ -76,3 +80,4 @@ Print Assumptions C07_pair_text_at_position.
 Print Assumptions C07_string_lex.
 Print Assumptions C07_string_lex_empty.
 Print Assumptions C07_spec_reads_quote.
+Print Assumptions C07_int_lex.
